@@ -262,3 +262,287 @@ Theorem agreement_implies_c08_oracle n t :
 Proof.
   intros Hn Ht Ha. rewrite (model_agrees_obs t (init n) Ha). now apply model_satisfies_c08_oracle.
 Qed.
+
+(* ================================================================== *)
+(** * C09: the oracle [c09_oracle] accepts what the model does on every
+      gated history that keeps the discipline [c09_disciplined] (no two
+      requests with one id in flight, a child answers a request in flight
+      at most once). *)
+
+(** the slot vector the code holds for a request with replies [rs] *)
+Definition slot_vec {A} (n : nat) (rs : list (nat * A)) : list (option A) :=
+  List.map (fun i => option_map snd (find (fun p => Nat.eqb (fst p) i) rs)) (seq 0 n).
+
+Lemma slot_vec_nil {A} n : @slot_vec A n [] = repeat None n.
+Proof.
+  unfold slot_vec. cbn [find option_map]. generalize 0%nat.
+  induction n as [|n IH]; intro a; cbn; [reflexivity | now rewrite IH].
+Qed.
+
+Lemma slot_vec_length {A} n (rs : list (nat * A)) : length (slot_vec n rs) = n.
+Proof. unfold slot_vec. now rewrite map_length, seq_length. Qed.
+
+Lemma slot_vec_upd {A} n i (a : A) rs :
+  (i < n)%nat -> upd_nth i (Some a) (slot_vec n rs) = Some (slot_vec n ((i, a) :: rs)).
+Proof.
+  intro Hi. unfold slot_vec. rewrite upd_nth_map_seq by assumption. f_equal.
+  apply map_ext. intro j. cbn [find fst Nat.add]. rewrite (Nat.eqb_sym i j).
+  destruct (Nat.eqb j i); reflexivity.
+Qed.
+
+Lemma has_child_find {A} i (rs : list (nat * A)) :
+  has_child i rs = negb (isNone (find (fun p => Nat.eqb (fst p) i) rs)).
+Proof.
+  unfold has_child. induction rs as [|p rs IH]; cbn; [reflexivity|].
+  destruct (Nat.eqb (fst p) i); cbn; [reflexivity | exact IH].
+Qed.
+
+Lemma slot_vec_holes {A} n (rs : list (nat * A)) : existsb isNone (slot_vec n rs) = negb (complete n rs).
+Proof.
+  unfold slot_vec, complete. generalize 0%nat.
+  induction n as [|n IH]; intro a; cbn [seq List.map existsb forallb]; [reflexivity|].
+  rewrite IH, has_child_find, negb_andb.
+  destruct (find _ rs); reflexivity.
+Qed.
+
+Lemma slot_vec_full {A} n (rs : list (nat * A)) :
+  complete n rs = true -> slot_vec n rs = List.map Some (in_child_order n rs).
+Proof.
+  unfold slot_vec, complete, in_child_order. generalize 0%nat.
+  induction n as [|n IH]; intro a; cbn [seq List.map forallb flat_map]; [reflexivity|].
+  intro H. apply andb_true_iff in H as [H1 H2]. rewrite has_child_find in H1.
+  destruct (find _ rs) as [p|]; [|discriminate]. cbn [option_map app List.map]. f_equal. now apply IH.
+Qed.
+
+Lemma in_child_order_In {A} n (rs : list (nat * A)) a : In a (in_child_order n rs) -> exists i, In (i, a) rs.
+Proof.
+  unfold in_child_order. intro H. apply in_flat_map in H as [i [_ H]].
+  destruct (find _ rs) as [p|] eqn:Ef; [|destruct H]. destruct H as [<-|[]].
+  apply find_some in Ef as [Hin _]. exists (fst p). now destruct p.
+Qed.
+
+(** [w_put] on the vector of an incomplete request is the oracle's [attribute] *)
+Lemma w_put_slot_vec {A} n i (a : A) rs :
+  (i < n)%nat ->
+  w_put (Some (slot_vec n rs)) i a =
+  if complete n ((i, a) :: rs)
+  then (None, Some (List.map Some (in_child_order n ((i, a) :: rs))))
+  else (Some (slot_vec n ((i, a) :: rs)), None).
+Proof.
+  intro Hi. unfold w_put. rewrite (slot_vec_upd n i a rs Hi).
+  destruct (slot_vec n rs) as [|x l] eqn:E.
+  { exfalso. pose proof (slot_vec_length n rs) as L. rewrite E in L. cbn in L. lia. }
+  rewrite slot_vec_holes. destruct (complete n ((i, a) :: rs)) eqn:Ec; cbn [negb]; [|reflexivity].
+  now rewrite (slot_vec_full _ _ Ec).
+Qed.
+
+(** the text's verdict, as the oracle's boolean *)
+Lemma is_prefix_app p q : is_prefix p (p ++ q) = true.
+Proof. induction p as [|x p IH]; cbn; [reflexivity | now rewrite N.eqb_refl]. Qed.
+
+Lemma find_first_rejecting before c after :
+  (forall b, In b before -> ok_acc b = true) -> ok_acc c = false ->
+  find (fun r => negb (ok_acc r)) (before ++ c :: after) = Some c.
+Proof.
+  intros Hb Hc. induction before as [|b before IH]; cbn.
+  - now rewrite Hc.
+  - rewrite (Hb b (or_introl eq_refl)). cbn. apply IH. intros x Hx. apply Hb. now right.
+Qed.
+
+Lemma ok_verdict_spec_b id xs r : ok_verdict_spec id xs r -> ok_out_ok id xs r = true.
+Proof.
+  intros [Hid [Hacc Hrej]]. unfold ok_out_ok. rewrite Hid, str_eqb_refl. cbn [andb].
+  destruct (ok_acc r) eqn:Ea.
+  - assert (Hall : forallb ok_acc xs = true) by (apply forallb_forall; now apply Hacc).
+    rewrite Hall. cbn.
+    destruct (find _ xs) as [c|] eqn:Ef; [|reflexivity]. apply find_some in Ef as [Hin Hc].
+    rewrite (proj1 Hacc eq_refl c Hin) in Hc. discriminate.
+  - destruct (Hrej eq_refl) as [before [c [after [rest [Exs [Hb [Hc Hm]]]]]]].
+    assert (Hall : forallb ok_acc xs = false).
+    { destruct (forallb ok_acc xs) eqn:E; [|reflexivity]. rewrite forallb_forall in E.
+      rewrite <- Hc. symmetry. apply E. rewrite Exs. apply in_or_app. right. now left. }
+    rewrite Hall. cbn. rewrite Exs, (find_first_rejecting _ _ _ Hb Hc), Hm. apply is_prefix_app.
+Qed.
+
+Lemma count_max_spec_b sub xs r : count_max_spec sub xs r -> cnt_out_ok sub xs r = true.
+Proof.
+  intros [Hs [Hin Hmax]]. unfold cnt_out_ok. rewrite Hs, str_eqb_refl. cbn [andb].
+  apply andb_true_iff. split.
+  - apply forallb_forall. intros x Hx. apply Z.leb_le. now apply Hmax.
+  - apply existsb_exists. exists r. split; [assumption | apply Z.eqb_refl].
+Qed.
+
+(** the oracle's memory and the discipline's memory against the slot table *)
+Definition rel9 {A} (key : A -> str) (n : nat) (fl : flight A) (pd : pending A)
+  (m : list (str * list (option A))) : Prop :=
+  forall k,
+    match assoc k fl with
+    | None => vlist (assoc k pd) = [] /\ assoc k m = None
+    | Some rs => vlist (assoc k pd) = [rs] /\ assoc k m = Some (slot_vec n rs) /\
+                 complete n rs = false /\ forall p, In p rs -> key (snd p) = k
+    end.
+
+Lemma rel9_init {A} (key : A -> str) n : rel9 key n [] [] [].
+Proof. intro k. cbn. auto. Qed.
+
+Lemma complete_nil {A} n : (1 <= n)%nat -> @complete A n [] = false.
+Proof. intro H. destruct n; [lia | reflexivity]. Qed.
+
+(** a new request (the id is not in flight) *)
+Lemma rel9_request {A} (key : A -> str) n fl pd m m' id :
+  (1 <= n)%nat -> rel9 key n fl pd m -> assoc id fl = None ->
+  assoc id m' = Some (repeat None n) -> (forall k, k <> id -> assoc k m' = assoc k m) ->
+  rel9 key n (m_set id [] fl) (m_set id (vlist (assoc id pd) ++ [[]]) pd) m'.
+Proof.
+  intros Hn R Ef Em Hoth k. destruct (str_dec id k) as [<-|N].
+  - rewrite !assoc_m_set_same. pose proof (R id) as Rk. rewrite Ef in Rk. destruct Rk as [Rq _].
+    rewrite Rq. cbn [vlist app]. rewrite Em, slot_vec_nil.
+    split; [reflexivity|]. split; [reflexivity|]. split; [now apply complete_nil | intros p []].
+  - rewrite !assoc_m_set_other by assumption. rewrite (Hoth k) by congruence. apply R.
+Qed.
+
+(** one reply: what the oracle's [attribute] says, given what [w_put] did *)
+Lemma rel9_reply {A} (key : A -> str) n fl fl' pd m m' i (a : A) :
+  (1 <= n)%nat -> (i < n)%nat -> rel9 key n fl pd m ->
+  disc_reply n i (key a) a fl = Some fl' ->
+  assoc (key a) m' = fst (w_put (assoc (key a) m) i a) ->
+  (forall k, k <> key a -> assoc k m' = assoc k m) ->
+  match attribute n i a (vlist (assoc (key a) pd)) with
+  | None => snd (w_put (assoc (key a) m) i a) = None /\ rel9 key n fl' pd m'
+  | Some (q', Some hit) =>
+      snd (w_put (assoc (key a) m) i a) = Some (List.map Some (in_child_order n hit)) /\
+      (forall b, In b (in_child_order n hit) -> key b = key a) /\
+      rel9 key n fl' (m_set (key a) q' pd) m'
+  | Some (q', None) => snd (w_put (assoc (key a) m) i a) = None /\ rel9 key n fl' (m_set (key a) q' pd) m'
+  end.
+Proof.
+  intros Hn Hi R D Em Hoth. unfold disc_reply in D. pose proof (R (key a)) as Rk.
+  destruct (assoc (key a) fl) as [rs|] eqn:Ef.
+  - destruct Rk as [Rq [Rm [Rc Rkey]]]. rewrite Rq, Rm in *. cbn [attribute].
+    destruct (has_child i rs) eqn:Eh; [discriminate|].
+    rewrite (w_put_slot_vec n i a rs Hi) in *.
+    assert (Hkey' : forall p, In p ((i, a) :: rs) -> key (snd p) = key a).
+    { intros p [<-|Hp]; [reflexivity | now apply Rkey]. }
+    destruct (complete n ((i, a) :: rs)) eqn:Ec; cbn [fst snd] in *; inversion D; subst fl'; clear D.
+    + split; [reflexivity|]. split.
+      * intros b Hb. apply in_child_order_In in Hb as [j Hj]. apply (Hkey' (j, b) Hj).
+      * intro k. destruct (str_dec (key a) k) as [<-|N].
+        -- rewrite assoc_m_del_same, assoc_m_set_same, Em. cbn. auto.
+        -- rewrite assoc_m_del_other, assoc_m_set_other by assumption. rewrite (Hoth k) by congruence. apply R.
+    + split; [reflexivity|]. intro k. destruct (str_dec (key a) k) as [<-|N].
+      * rewrite !assoc_m_set_same, Em. cbn [vlist]. auto.
+      * rewrite !assoc_m_set_other by assumption. rewrite (Hoth k) by congruence. apply R.
+  - destruct Rk as [Rq Rm]. rewrite Rq, Rm in *. cbn [attribute w_put fst snd] in *.
+    inversion D; subst fl'. split; [reflexivity|].
+    intro k. destruct (str_dec (key a) k) as [<-|N].
+    + rewrite Ef, Em. auto.
+    + rewrite (Hoth k) by congruence. apply R.
+Qed.
+
+Lemma rel9_same {A} (key : A -> str) n fl pd m m' :
+  rel9 key n fl pd m -> m' = m -> rel9 key n fl pd m'.
+Proof. now intros R ->. Qed.
+
+Lemma c09_step n s x fe fc pe pc t' :
+  (1 <= n)%nat -> state_ok n s -> input_ok n x ->
+  rel9 ok_id n fe pe (os_s (st_os s)) -> rel9 c_sub n fc pc (cs_counts (st_cs s)) ->
+  c09_disc n (x :: t') fe fc = true ->
+  exists fe' fc' pe' pc',
+    c09_disc n t' fe' fc' = true /\
+    (forall o, c09_scan n ((x, out_list (snd (merge_step s x))) :: o) pe pc = c09_scan n o pe' pc') /\
+    rel9 ok_id n fe' pe' (os_s (st_os (fst (merge_step s x)))) /\
+    rel9 c_sub n fc' pc' (cs_counts (st_cs (fst (merge_step s x)))).
+Proof.
+  intros Hn Hs Hx Re Rc D. pose proof Hs as [Hd [Hr [Ho Hc]]].
+  unfold merge_step. rewrite Hd.
+  destruct x as [sub fs|sub|id|sub|i m]; cbn [fst snd out_list c09_disc] in *.
+  - exists fe, fc, pe, pc. repeat split; auto.
+  - exists fe, fc, pe, pc. repeat split; auto.
+  - (* EVENT *)
+    destruct (assoc id fe) as [rs|] eqn:Ef; [discriminate|].
+    exists (m_set id [] fe), fc, (m_set id (vlist (assoc id pe) ++ [[]]) pe), pc.
+    split; [exact D|]. split; [intro o; reflexivity|]. split; [|exact Rc].
+    cbn [with_os st_os]. pose proof (Re id) as Rk. rewrite Ef in Rk. destruct Rk as [_ Rm].
+    unfold os_try_set. rewrite Rm. cbn [vlist zlen length Z.of_nat h_ok_has_slot Z.gtb Z.compare].
+    cbn [os_s]. destruct Ho as [Hsz _]. rewrite Hsz.
+    apply (rel9_request ok_id n fe pe (os_s (st_os s))); auto.
+    + apply assoc_m_set_same.
+    + intros k N. apply assoc_m_set_other. congruence.
+  - (* COUNT *)
+    destruct (assoc sub fc) as [rs|] eqn:Ef; [discriminate|].
+    exists fe, (m_set sub [] fc), pe, (m_set sub (vlist (assoc sub pc) ++ [[]]) pc).
+    split; [exact D|]. split; [intro o; reflexivity|]. split; [exact Re|].
+    cbn [with_cs st_cs cs_set_sub cs_counts]. destruct Hc as [Hsz _]. rewrite Hsz.
+    apply (rel9_request c_sub n fc pc (cs_counts (st_cs s))); auto.
+    + apply assoc_m_set_same.
+    + intros k N. apply assoc_m_set_other. congruence.
+  - destruct m as [sub|sub e|m|c|t|sub p t]; cbn [input_ok] in Hx.
+    + destruct (send_eose_spec n s i sub Hr Hx) as [r' [E _]]. rewrite E. cbn [fst snd with_rs st_os st_cs].
+      exists fe, fc, pe, pc. repeat split; auto. intro o. cbn [c09_scan].
+      destruct (snd (w_eose _ i)); reflexivity.
+    + destruct Hx as [Hi Hne].
+      destruct (send_event_spec n s i sub e Hr Hi Hne) as [r' [E _]]. rewrite E. cbn [fst snd with_rs st_os st_cs].
+      exists fe, fc, pe, pc. repeat split; auto. intro o. cbn [c09_scan].
+      destruct (snd (w_event _ i e)); reflexivity.
+    + (* OK *)
+      destruct (disc_reply n i (ok_id m) m fe) as [fe'|] eqn:Ed; [|discriminate].
+      destruct (send_ok_spec n s i m Ho Hx) as [o' [E [_ [Hoth [Hsame Hfull]]]]]. cbv zeta in *.
+      rewrite E. cbn [fst snd with_os st_os st_cs].
+      pose proof (rel9_reply ok_id n fe fe' pe (os_s (st_os s)) (os_s o') i m Hn Hx Re Ed Hsame Hoth) as P.
+      cbn [c09_scan].
+      destruct (attribute n i m (vlist (assoc (ok_id m) pe))) as [[q' [hit|]]|].
+      * destruct P as [Ew [Hk R']]. rewrite Ew in *. destruct (Hfull _ eq_refl) as [r Er].
+        cbn [out_ok]. rewrite Er. cbn [option_map out_list].
+        exists fe', fc, (m_set (ok_id m) q' pe), pc. split; [exact D|]. split; [|split; assumption].
+        intro o. rewrite (ok_verdict_spec_b _ _ _ (ok_merge_verdict _ _ _ Er Hk)). reflexivity.
+      * destruct P as [Ew R']. rewrite Ew. cbn [out_ok out_list].
+        exists fe', fc, (m_set (ok_id m) q' pe), pc. repeat split; auto.
+      * destruct P as [Ew R']. rewrite Ew. cbn [out_ok out_list].
+        exists fe', fc, pe, pc. repeat split; auto.
+    + (* COUNT reply *)
+      destruct (disc_reply n i (c_sub c) c fc) as [fc'|] eqn:Ed; [|discriminate].
+      destruct (send_count_spec n s i c Hc Hx) as [c' [E [_ [Hoth [Hsame Hfull]]]]]. cbv zeta in *.
+      rewrite E. cbn [fst snd with_cs st_os st_cs].
+      pose proof (rel9_reply c_sub n fc fc' pc (cs_counts (st_cs s)) (cs_counts c') i c Hn Hx Rc Ed Hsame Hoth) as P.
+      cbn [c09_scan].
+      destruct (attribute n i c (vlist (assoc (c_sub c) pc))) as [[q' [hit|]]|].
+      * destruct P as [Ew [Hk R']]. rewrite Ew in *. destruct (Hfull _ eq_refl) as [r Er].
+        cbn [out_cnt]. rewrite Er. cbn [option_map out_list].
+        exists fe, fc', pe, (m_set (c_sub c) q' pc). split; [exact D|]. split; [|split; assumption].
+        intro o. rewrite (count_max_spec_b _ _ _ (cnt_merge_max _ _ _ Er Hk)). reflexivity.
+      * destruct P as [Ew R']. rewrite Ew. cbn [out_cnt out_list].
+        exists fe, fc', pe, (m_set (c_sub c) q' pc). repeat split; auto.
+      * destruct P as [Ew R']. rewrite Ew. cbn [out_cnt out_list].
+        exists fe, fc', pe, pc. repeat split; auto.
+    + exists fe, fc, pe, pc. repeat split; auto.
+    + exists fe, fc, pe, pc. repeat split; auto.
+Qed.
+
+Lemma c09_run n t : forall s fe fc pe pc,
+  (1 <= n)%nat -> state_ok n s -> trace_ok n t ->
+  rel9 ok_id n fe pe (os_s (st_os s)) -> rel9 c_sub n fc pc (cs_counts (st_cs s)) ->
+  c09_disc n t fe fc = true ->
+  c09_scan n (obs_of s t) pe pc = true.
+Proof.
+  induction t as [|x t IH]; intros s fe fc pe pc Hn Hs Ht Re Rc D; [reflexivity|].
+  inversion Ht as [|? ? Hx Ht']; subst. rewrite obs_of_cons.
+  destruct (c09_step n s x fe fc pe pc t Hn Hs Hx Re Rc D) as [fe' [fc' [pe' [pc' [D' [Esc [Re' Rc']]]]]]].
+  rewrite Esc. apply (IH _ fe' fc'); auto. now apply step_ok.
+Qed.
+
+(** the C09 oracle accepts the model's behaviour on every gated history that
+    keeps the discipline *)
+Theorem model_satisfies_c09_oracle n t :
+  (1 <= n)%nat -> trace_ok n t -> c09_disciplined n t -> c09_oracle n (obs_of (init n) t) = true.
+Proof.
+  intros Hn Ht D. apply (c09_run n t (init n) [] [] [] []); auto using init_ok.
+  - apply rel9_init.
+  - apply rel9_init.
+Qed.
+
+Theorem agreement_implies_c09_oracle n t :
+  (1 <= n)%nat -> trace_ok n (List.map fst t) -> c09_disciplined n (List.map fst t) ->
+  model_agrees (init n) t = true -> c09_oracle n t = true.
+Proof.
+  intros Hn Ht D Ha. rewrite (model_agrees_obs t (init n) Ha). now apply model_satisfies_c09_oracle.
+Qed.
